@@ -200,11 +200,15 @@ func (c *ContractIterator) Value() []byte {
 // stripDelIterator 从迭代器里剔除删除标注和空版本
 type stripDelIterator struct {
 	ledger.XMIterator
+	// stripEmpty also drops empty versions (keys that were read and found absent).
+	// It must be off for iterators carrying pending writes, which have no version either.
+	stripEmpty bool
 }
 
-func newStripDelIterator(xmiter ledger.XMIterator) ledger.XMIterator {
+func newStripDelIterator(xmiter ledger.XMIterator, stripEmpty bool) ledger.XMIterator {
 	return &stripDelIterator{
 		XMIterator: xmiter,
+		stripEmpty: stripEmpty,
 	}
 }
 
@@ -212,6 +216,9 @@ func (s *stripDelIterator) Next() bool {
 	for s.XMIterator.Next() {
 		v := s.Value()
 		if IsDelFlag(v.PureData.Value) {
+			continue
+		}
+		if s.stripEmpty && IsEmptyVersionedData(v) {
 			continue
 		}
 		return true
